@@ -172,7 +172,7 @@ class G:
             elif k < 0.8 and not plus:
                 cnt = ln - off + r.choice([1, 2]) if cnt != -1 else -2
             elif not plus:
-                cnt = r.choice([-2, -3, -ln - 1])
+                cnt = r.choice([-2, -3, -ln - 2])                  # (never -1: that means "the rest")
             else:
                 off = ln + 1
         if plus:
@@ -425,6 +425,9 @@ CORPUS = [
 
 def main(argv):
     ck = Check("C02", argv)
+    if os.environ.get("C02_SHRINK_BUDGET"):      # development only: cheaper minimisation when trying broken variants
+        _b, _orig = int(os.environ["C02_SHRINK_BUDGET"]), ck.shrink
+        ck.shrink = lambda h, fails, budget=120: _orig(h, fails, budget=_b)
     ck.rule = ("histories of 6-40 operations on 6 handle variables (malloc with/without data, malloc from memory, wrapMemory, "
                "slice, +, cast, setDtype, clone, copyFrom/copyTo host and device, assignment, free, direct host access to the "
                "wrapped arrays) on a Serial or OpenMP device; dtype sizes 1,2,4,8,12; sizes 0-256 bytes; counts and offsets "
@@ -442,7 +445,7 @@ def main(argv):
     if ck.replay:
         ck.correspond(hb, db, [read_replay(ck.replay)], label="replay", ubsan_is_violation=ub)
     else:
-        n = 1000 if ck.tier == "quick" else 30000
+        n = 1000 if ck.tier == "quick" else 15000
         hs = CORPUS + [gen_history(ck.rng) for _ in range(n)]
         ck.correspond(hb, db, hs, label="mem", ubsan_is_violation=ub, timeout=3000)
         # the region of the known finding F05 (uninitialised receiver), plus casts to the zero-byte dtype void:
